@@ -42,6 +42,7 @@ class Contract:
     modifies: list[str] = field(default_factory=list)
     loops: dict[int, Loop] = field(default_factory=dict)
     lemmas: dict[str, Lemma] = field(default_factory=dict)
+    pure: bool = False  # result is an (uninterpreted) function of the arguments: equal arguments give equal results
     captures_only: bool = False  # only the closure-cell (late binding) obligations are generated for this unit
     ghost_entry: str = ""  # ghost statements executed on entry (after the preconditions are assumed)
     yield_asserts: dict[str, str] = field(default_factory=dict)  # goals at every `yield` of the unit (`yielded` = the value; locals visible)
